@@ -37,8 +37,12 @@ PROPS = {
         "claim": {
             "text": ENGINE_TXT + "C01: projection to the exact checks (capacity levels, distance) for every reachable "
                     "state; maximum stops and compatibility have no exact check (regenerated fact) and are proved from "
-                    "the estimate gate (exact estimate formulas) + closure under removals. No-mix is NOT proved "
-                    "(partial): it is decided by the Spec oracle. The oracle NR.Spec.staticOK, computed from the "
+                    "the estimate gate (exact estimate formulas) + closure under removals. No-mix (NR.Props.C01M over NR.Mix, a transcription of the updater "
+                    "and of the estimate, tied by the exact `mix st` / `mix est` lines): a move the estimate admits produces a route "
+                    "on which the updater succeeds at every stop, the unit's own running quantity never goes negative, removing any "
+                    "unit from such a route leaves such a route (un-plan cannot fail), and Spec.mixOK accepts exactly the routes on "
+                    "which every per-resource updater succeeds; counterexample theorems for the estimate as given (E29, E30, E31) and "
+                    "for empty item names (E32), all reproduced on the code and repaired there. The oracle NR.Spec.staticOK, computed from the "
                     "input-derived instance alone, judges every solution delivered by the solver and every state of "
                     "random API histories.",
             "note": TB_COMMON + " Translation of JSON quantities/capacities/limits into expressions is tied (oracle uses "
@@ -46,7 +50,7 @@ PROPS = {
             "technique": "Lean 4 proof (invariant by induction over operation histories) + Spec oracle on the real code's observations",
             "design_ref": "DESIGN.md §5 C01, §3.6",
         },
-        "lean_props": ["C01", "EngineThms", "SchedThms"],
+        "lean_props": ["C01", "EngineThms", "SchedThms", "C01M"],
         "facts": ["CheckFacts"],
         "streams": [SOL, HIST, HISTW],
     },
@@ -145,7 +149,7 @@ PROPS = {
             "technique": "Lean 4 proof (rollback theorem, partial + counterexample) + before/after snapshot differential on the real code",
             "design_ref": "DESIGN.md §5 C07",
         },
-        "lean_props": ["C07", "C08", "EngineThms", "LinksThms"],
+        "lean_props": ["C07", "C08", "EngineThms", "LinksThms", "C01M"],
         "streams": [HIST, HISTUC],
     },
     "C08": {
@@ -183,7 +187,7 @@ PROPS = {
             "technique": "Lean 4 proof (estimate/exact equivalence for Maximum, MaximumStops, Attributes) + executable-then-Execute differential on the real code",
             "design_ref": "DESIGN.md §5 C09",
         },
-        "lean_props": ["C09", "C09W", "C09G", "C01"],
+        "lean_props": ["C09", "C09W", "C09G", "C01", "C01M"],
         "facts": ["CheckFacts"],
         "streams": [HIST, HISTW],
     },
@@ -321,7 +325,7 @@ PROPS = {
             "technique": "Lean 4 proof (index arithmetic over regenerated size expressions) + crash differential on the real code",
             "design_ref": "DESIGN.md §5 C16",
         },
-        "lean_props": ["C16"],
+        "lean_props": ["C16", "C01M"],
         "facts": ["FrontFacts"],
         "streams": [{"name": "crash", "corpus": True, "model": False}, HIST, RC],
         "also": [],
